@@ -374,6 +374,8 @@ package commitlog
 //@   ensures [conditional-lands-where-expected] err == nil && l.ConcurrencyControl && len(msgs) == 1 && old(msgs[0].Offset) != -1 ==> offsets[0] == old(msgs[0].Offset)
 //@   ensures [mismatch-refused] old(l.ConcurrencyControl) && len(msgs) == 1 && old(msgs[0].Offset) != -1 && old(msgs[0].Offset) != old(nextOffset(l)) ==> err != nil
 //@   call (*commitLog).append requires [only-when-accepted] err == nil
+//@   ensures [waived-accepted] old(l.ConcurrencyControl) && len(msgs) == 1 && old(msgs[0].Offset) == -1 ==> err != ErrIncorrectOffset
+//@   ensures [expected-accepted] len(msgs) == 1 && old(msgs[0].Offset) == old(nextOffset(l)) ==> err != ErrIncorrectOffset
 
 // Of two successful conditional appends with the same expected offset (no truncation in between) at most one wins.
 //@ lemma atMostOneWinner serves C16: forall n1 int64, m1 int64, n2 int64, m2 int64, e int64 :: e != -1 && (e == n1 && m1 == n1 + 1) && n2 >= m1 && (e == n2 && m2 == n2 + 1) ==> false
